@@ -27,12 +27,15 @@ func init() {
 		Level: "exploration",
 		Rule: "part A (exhaustive in both tiers): the full product of Session outcomes - PA {absent, failed, failed with CardSecurity part set, ok, ok with CardSecurity} x AA/PACE-CAM/CA {absent, failed, ok}^3 x completeness error {nil, set} x the five step errors {nil, set} x BAC/PACE results {absent, failed, ok}^2 = 77760 sessions, each judged by Summary() and VerifiedChipAuthStatus(); " +
 			"part B: end-to-end reads of hostile chips (clone without private keys, clone with its own DG14/DG15/CardSecurity and matching keys under the genuine SOD, DG14/DG15 withheld although listed, CardAccess advertising a PACE info that DG14 does not contain, untrusted issuer) x {BAC, PACE-GM, PACE-CAM} x {AA-RSA, AA-ECDSA, CA, none}, live and after serialisation + offline verification; " +
+			"part B, configuration product: every scenario x reader configuration {default, SkipPace, SkipImages, caller-supplied AA challenge, small max-read, extended max-read, all switches} on an applicable chip drawn from {BAC, PACE-GM+BAC, PACE-GM, PACE-CAM, PACE-CAM+BAC} x {AA-RSA, AA-ECDSA, CA, none, AA+CA} (SkipPace only on chips that also allow BAC; a BAC-only chip gets a CardAccess ADDED; a downgraded CardAccess whose suite the chip does not run, so that the reader falls back to BAC), offline also with a verifier given the same / another AA challenge; " +
+			"in both blocks the DataGroupHash entries of the security object are listed in ascending, descending or shuffled order (a withheld DG14/DG15 listed after a higher number); " +
 			"oracle: trusted only if PA ok and completeness ok; chip-authenticity X only if X ok and PA ok (and CardSecurity authenticated for PACE-CAM); clones never authentic; stripped/downgraded never trusted; non-trivial = every judged session; distinct = the session tuple / the hostile scenario",
 		MinEvaluations: 77760,
 		Exhaustive:     func(string) bool { return false },
 		Assumptions: []string{
 			"only the 'only when' direction is asserted; for a genuine chip behind a downgraded CardAccess or with a withheld file only 'not trusted' is asserted",
 			"part A is exhaustive over the exported Session fields (reported in coverage.observed.partA_sessions); part B is sampled",
+			"the reader configuration and the order of the hash list are workload dimensions only: the oracle is the same implication for every configuration (whether SkipPace really skipped PACE is counted, not judged)",
 		},
 		Run: runC02,
 	})
@@ -256,19 +259,149 @@ func c02Walk(k *fw.K, i int) {
 
 var c02Scenarios = []string{"clone-no-keys", "clone-own-keys", "strip-dg14", "strip-dg15", "strip-both", "downgrade-cardaccess", "downgrade-cardaccess-extra-info", "untrusted-issuer", "genuine"}
 
-func c02PartB(k *fw.K, i int) {
+// reader configurations of part B: the switches a caller of reader.Reader / NfcSession has
+var c02Configs = []string{"default", "skip-pace", "skip-images", "aa-challenge", "max-read-small", "max-read-extended", "all-switches"}
+
+// access-control kinds of part B: perso.Access plus a PACE-CAM chip that also allows BAC
+var c02AccKinds = []string{"BAC", "PACE-GM+BAC", "PACE-GM", "PACE-CAM", "PACE-CAM+BAC"}
+
+// chip authentication mechanisms of part B
+var c02Mechs = []string{"AA-RSA", "AA-ECDSA", "CA", "none", "AA-RSA+CA", "AA-ECDSA+CA"}
+
+// c02BCase is one end-to-end read of part B: hostile scenario x chip x reader configuration x
+// order of the DataGroupHash entries in the security object.
+type c02BCase struct {
+	block   string // "partB" (scenario x chip rotation) or "partBcfg" (scenario x configuration product)
+	sc      string
+	accKind int // index into c02AccKinds
+	mech    int // index into c02Mechs
+	cfg     int // index into c02Configs
+	order   perso.SODOrder
+	moreDGs int // 0: DG2, DG11; 1: plus DG16; 2: plus a drawn subset of {7, 12, 13, 16}
+}
+
+func (cs c02BCase) String() string {
+	return fmt.Sprintf("%s|%s|mech=%s|cfg=%s|sod-order=%v", cs.sc, c02AccKinds[cs.accKind], c02Mechs[cs.mech], c02Configs[cs.cfg], cs.order)
+}
+
+func (cs c02BCase) hasAA() bool   { return cs.mech == 0 || cs.mech == 1 || cs.mech >= 4 }
+func (cs c02BCase) hasCA() bool   { return cs.mech == 2 || cs.mech >= 4 }
+func (cs c02BCase) hasPACE() bool { return cs.accKind != 0 }
+func (cs c02BCase) hasBAC() bool  { return cs.accKind == 0 || cs.accKind == 1 || cs.accKind == 4 }
+func (cs c02BCase) isCAM() bool   { return cs.accKind >= 3 }
+func (cs c02BCase) skipPace() bool {
+	return c02Configs[cs.cfg] == "skip-pace" || c02Configs[cs.cfg] == "all-switches"
+}
+
+// c02Applicable says whether the chip of a case gives the scenario and the configuration
+// something to bite on (the file to strip exists, the reader can open the chip at all, there
+// is a mechanism a clone could try to pass, ...).
+func c02Applicable(cs c02BCase) bool {
+	if cs.skipPace() && !cs.hasBAC() {
+		return false // with PACE switched off only BAC can open the chip
+	}
+	if c02Configs[cs.cfg] == "aa-challenge" && !cs.hasAA() {
+		return false
+	}
+	switch cs.sc {
+	case "clone-no-keys", "clone-own-keys":
+		return cs.mech != 3 || (cs.isCAM() && !cs.skipPace())
+	case "strip-dg14":
+		return cs.hasPACE() || cs.hasCA()
+	case "strip-dg15":
+		return cs.hasAA()
+	case "strip-both":
+		return (cs.hasPACE() || cs.hasCA()) && cs.hasAA()
+	case "downgrade-cardaccess":
+		// a BAC-only chip has no CardAccess to downgrade: there the hostile chip ADDS one (DG14
+		// must exist, otherwise the library has nothing to compare it with)
+		return cs.hasPACE() || cs.hasCA()
+	case "downgrade-cardaccess-extra-info":
+		return cs.hasPACE()
+	}
+	return true
+}
+
+// c02CfgPlan is the case list of the scenario x configuration product: for every pair the
+// applicable chips (access kind x mechanism) are put in a seed-determined order and one is
+// taken per round; the order of the hash list rotates with the round.
+func c02CfgPlan(c *fw.Ctx, rounds int) []c02BCase {
+	prng := c.PlanRNG("c02-partB-configurations")
+	var out []c02BCase
+	perm := map[[2]int][]c02BCase{}
+	for si, sc := range c02Scenarios {
+		for cfg := range c02Configs {
+			var app []c02BCase
+			for a := range c02AccKinds {
+				for m := range c02Mechs {
+					cs := c02BCase{block: "partBcfg", sc: sc, accKind: a, mech: m, cfg: cfg, moreDGs: 2}
+					if c02Applicable(cs) {
+						app = append(app, cs)
+					}
+				}
+			}
+			if len(app) == 0 {
+				fw.Bug("C02: no applicable chip for %s x %s", sc, c02Configs[cfg])
+			}
+			prng.Shuffle(len(app), func(i, j int) { app[i], app[j] = app[j], app[i] })
+			perm[[2]int{si, cfg}] = app
+		}
+	}
+	for round := 0; round < rounds; round++ {
+		for cfg := range c02Configs {
+			for si := range c02Scenarios {
+				app := perm[[2]int{si, cfg}]
+				cs := app[round%len(app)]
+				cs.order = perso.SODOrder((round + si + cfg) % 3)
+				out = append(out, cs)
+			}
+		}
+	}
+	return out
+}
+
+// c02RotationCase is the case list of the older block: scenario x {BAC, PACE-GM, PACE-CAM} x
+// {AA-RSA, AA-ECDSA, CA, none} under the default configuration; every further pass over that
+// product uses the next order of the hash list.
+func c02RotationCase(i int) c02BCase {
+	ns := len(c02Scenarios)
+	cs := c02BCase{block: "partB", sc: c02Scenarios[i%ns], accKind: []int{0, 2, 3}[(i/ns)%3], mech: (i / ns / 3) % 4}
+	cs.order = perso.SODOrder((i / ns / 12) % 3)
+	if cs.order != perso.SODAscending {
+		cs.moreDGs = 1
+	}
+	return cs
+}
+
+func c02PartB(k *fw.K, i int, cs c02BCase) {
 	r := k.RNG
-	sc := c02Scenarios[i%len(c02Scenarios)]
-	acc := []perso.Access{perso.BACOnly, perso.PACEGMOnly, perso.PACECAM}[(i/len(c02Scenarios))%3]
-	mech := (i / len(c02Scenarios) / 3) % 4 // 0 AA-RSA, 1 AA-ECDSA, 2 CA, 3 none
+	sc, mech := cs.sc, cs.mech
+	acc := []perso.Access{perso.BACOnly, perso.PACEGMWithBAC, perso.PACEGMOnly, perso.PACECAM, perso.PACECAM}[cs.accKind]
+	pre := cs.block + "_"
 	o := perso.Opts{Access: acc, ParamID: 8 + r.IntN(11), Suite: symref.AllSuites[1+r.IntN(3)], DGs: []int{2, 11}}
-	switch mech {
-	case 0:
-		o.AA = perso.AAOpts{Kind: 1, Bits: 1024, Hash: chipsim.AAHash(r.IntN(5))}
-	case 1:
-		o.AA = perso.AAOpts{Kind: 2, Curve: r.IntN(11)}
-	case 2:
+	if cs.hasAA() {
+		if mech == 0 || mech == 4 {
+			o.AA = perso.AAOpts{Kind: 1, Bits: 1024, Hash: chipsim.AAHash(r.IntN(5))}
+		} else {
+			o.AA = perso.AAOpts{Kind: 2, Curve: r.IntN(11)}
+		}
+	}
+	if cs.hasCA() {
 		o.CA = perso.CAOpts{On: true, Curve: r.IntN(11), Suite: symref.AllSuites[r.IntN(4)], Form: r.IntN(3), Arrange: r.IntN(3)}
+	}
+	switch cs.moreDGs {
+	case 1:
+		o.DGs = append(o.DGs, 16)
+	case 2:
+		for _, n := range []int{7, 12, 13, 16} {
+			if r.IntN(2) == 0 {
+				o.DGs = append(o.DGs, n)
+			}
+		}
+	}
+	o.SODOrder = cs.order
+	if cs.order == perso.SODShuffled {
+		o.SODOrderSeed = r.Uint64()
 	}
 	o.PKI.CertHash = 2
 	o.Digest = 2
@@ -277,8 +410,9 @@ func c02PartB(k *fw.K, i int) {
 	}
 	p := perso.Build(r, o)
 	card := p.NewCard(uint64(i) + 1)
-	desc := fmt.Sprintf("%s|%v|mech=%d", sc, acc, mech)
+	desc := cs.String()
 	clone := false
+	stripped := []int{}
 	switch sc {
 	case "clone-no-keys":
 		clone = true
@@ -292,9 +426,9 @@ func c02PartB(k *fw.K, i int) {
 		if card.PACE != nil && card.PACE.CAMPriv != nil {
 			card.PACE.CAMPriv = new(big.Int).SetBytes(randBytes(r, 20)) // not the certified key
 		}
-		if mech == 3 && acc != perso.PACECAM {
+		if mech == 3 && !cs.isCAM() {
 			// nothing to clone without any chip authentication mechanism
-			k.Count("partB_clone_without_mechanism_skipped")
+			k.Count(pre + "clone_without_mechanism_skipped")
 			return
 		}
 	case "clone-own-keys":
@@ -308,7 +442,7 @@ func c02PartB(k *fw.K, i int) {
 			p2 = perso.Build(mrand.New(mrand.NewPCG(r.Uint64(), 5)), o2)
 		}
 		if p.DG15 != nil && bytesEq(p2.DG15, p.DG15) {
-			k.Count("partB_clone_same_key_skipped")
+			k.Count(pre + "clone_same_key_skipped")
 			return
 		}
 		c2 := p2.NewCard(uint64(i) + 7)
@@ -319,35 +453,43 @@ func c02PartB(k *fw.K, i int) {
 			}
 			c2.LDS[fid] = b
 		}
-		if mech == 3 && acc != perso.PACECAM {
-			k.Count("partB_clone_without_mechanism_skipped")
+		if mech == 3 && !cs.isCAM() {
+			k.Count(pre + "clone_without_mechanism_skipped")
 			return
 		}
 		card = c2
 	case "strip-dg14":
 		if _, ok := card.LDS[chipsim.FidDG(14)]; !ok {
-			k.Count("partB_strip_not_applicable")
+			k.Count(pre + "strip_not_applicable")
 			return
 		}
 		delete(card.LDS, chipsim.FidDG(14))
+		stripped = []int{14}
 	case "strip-dg15":
 		if _, ok := card.LDS[chipsim.FidDG(15)]; !ok {
-			k.Count("partB_strip_not_applicable")
+			k.Count(pre + "strip_not_applicable")
 			return
 		}
 		delete(card.LDS, chipsim.FidDG(15))
+		stripped = []int{15}
 	case "strip-both":
 		_, ok1 := card.LDS[chipsim.FidDG(14)]
 		_, ok2 := card.LDS[chipsim.FidDG(15)]
 		if !ok1 && !ok2 {
-			k.Count("partB_strip_not_applicable")
+			k.Count(pre + "strip_not_applicable")
 			return
+		}
+		if ok1 {
+			stripped = append(stripped, 14)
+		}
+		if ok2 {
+			stripped = append(stripped, 15)
 		}
 		delete(card.LDS, chipsim.FidDG(14))
 		delete(card.LDS, chipsim.FidDG(15))
 	case "downgrade-cardaccess-extra-info":
 		if acc == perso.BACOnly {
-			k.Count("partB_downgrade_not_applicable")
+			k.Count(pre + "downgrade_not_applicable")
 			return
 		}
 		// the genuine info stays first; one or two further infos that DG14 does not contain follow
@@ -366,8 +508,15 @@ func c02PartB(k *fw.K, i int) {
 		card.PACE.Supported = append(card.PACE.Supported, chipsim.PaceSupport{Mapping: chipsim.PaceECDHGM, Suite: ns, ParamID: o.ParamID}, chipsim.PaceSupport{Mapping: chipsim.PaceECDHGM, Suite: o.Suite, ParamID: 8 + (o.ParamID-8+3)%11})
 	case "downgrade-cardaccess":
 		if acc == perso.BACOnly {
-			k.Count("partB_downgrade_not_applicable")
-			return
+			if _, ok := card.LDS[chipsim.FidDG(14)]; !ok || cs.block == "partB" {
+				k.Count(pre + "downgrade_not_applicable")
+				return
+			}
+			// a BAC-only chip (DG14 because of chip authentication): the hostile chip ADDS a
+			// CardAccess advertising PACE, which DG14 does not contain; it cannot run PACE
+			card.MF[chipsim.FidCardAccess] = der.SetUnsorted(chipsim.PaceInfoDER(chipsim.PaceOIDArcs(chipsim.PaceECDHGM, o.Suite), 2, o.ParamID))
+			k.Count(pre + "cardaccess_added_to_bac_only_chip")
+			break
 		}
 		// advertise (and run) another generic-mapping suite than the one DG14 lists
 		ns := symref.TDES
@@ -378,12 +527,79 @@ func c02PartB(k *fw.K, i int) {
 			}
 		}
 		card.MF[chipsim.FidCardAccess] = der.SetUnsorted(chipsim.PaceInfoDER(chipsim.PaceOIDArcs(chipsim.PaceECDHGM, ns), 2, o.ParamID))
-		card.PACE.Supported = []chipsim.PaceSupport{{Mapping: chipsim.PaceECDHGM, Suite: ns, ParamID: o.ParamID}}
+		if cs.block != "partB" && cs.hasBAC() && i%2 == 1 {
+			// the advertised suite is a lie: PACE fails and the reader falls back to BAC
+			k.Count(pre + "downgrade_advertised_suite_not_run")
+		} else {
+			card.PACE.Supported = []chipsim.PaceSupport{{Mapping: chipsim.PaceECDHGM, Suite: ns, ParamID: o.ParamID}}
+		}
+	}
+	if cs.accKind == 4 && card.BAC == nil {
+		// a PACE-CAM chip that still allows BAC
+		card.BAC = chipsim.NewBAC(p.MRZInfo, mrand.New(mrand.NewPCG(uint64(i)+1, 1)))
+	}
+	// --- reader configuration
+	lo := liveOpts{maxLe: 256}
+	cfg := c02Configs[cs.cfg]
+	if cfg == "skip-pace" || cfg == "all-switches" {
+		lo.skipPace = true
+	}
+	if cfg == "skip-images" || cfg == "all-switches" {
+		lo.skipImages = true
+	}
+	if cfg == "aa-challenge" || cfg == "all-switches" {
+		lo.aaChallenge = randBytes(r, 8)
+	}
+	if cfg == "max-read-extended" || cfg == "all-switches" {
+		card.Extended = true
+		lo.maxLe = []int{257, 1000, 4096, 32767, 65535, 65536}[r.IntN(6)]
+	}
+	if cfg == "max-read-small" {
+		// not below what the responses of the chip's protocols need (PACE keys, AA signatures)
+		need := 0
+		if cs.hasPACE() {
+			need = 160
+		}
+		if o.AA.Kind == 1 && o.AA.Bits/8 > need {
+			need = o.AA.Bits / 8
+		}
+		if o.AA.Kind == 2 && 140 > need {
+			need = 140
+		}
+		lo.maxLe = []int{40, 64, 100, 127, 128, 129, 160, 192, 223, 231, 255}[r.IntN(11)]
+		if lo.maxLe < need {
+			lo.maxLe = need
+		}
+	}
+	// the order of the hash list: does a higher data group number precede a withheld file?
+	for _, w := range stripped {
+		for _, n := range p.SODDGs {
+			if n == w {
+				break
+			}
+			if n > w {
+				k.Count(pre + "withheld_file_listed_after_a_higher_number")
+				break
+			}
+		}
 	}
 	k.Nontrivial(desc + fmt.Sprintf("|%d", i))
-	k.Count("partB_" + sc)
-	res := liveRead(p, card, liveOpts{maxLe: 256}, nil)
-	det := map[string]any{"scenario": desc, "err": fmt.Sprint(res.err)}
+	k.Count(pre + sc)
+	if cs.block != "partB" {
+		k.Count(pre + "cfg_" + cfg)
+		k.Count(pre + "chip_" + c02AccKinds[cs.accKind])
+	}
+	k.Count(pre + "sod_order_" + cs.order.String())
+	res := liveRead(p, card, lo, nil)
+	det := map[string]any{"scenario": desc, "err": fmt.Sprint(res.err), "sod_order": fmt.Sprint(p.SODDGs), "max_read": lo.maxLe}
+	if lo.skipPace {
+		if card.BACDone && !card.PACEDone {
+			k.Count(pre + "skip_pace_opened_with_bac")
+		}
+		if card.PACEDone {
+			k.Count(pre + "skip_pace_but_pace_ran") // information only: not part of the statement
+		}
+	}
 	judge := func(d *document.DocumentEx, where string) bool {
 		if d == nil {
 			return true
@@ -394,31 +610,46 @@ func c02PartB(k *fw.K, i int) {
 		}
 		sum := d.Summary()
 		det["summary"] = fmt.Sprintf("trusted=%v authenticity=%v", sum.DataTrusted, sum.ChipAuthenticity)
+		kcfg := ""
+		if cs.block != "partB" {
+			kcfg = ":" + cfg
+		}
 		switch {
 		case clone:
 			if sum.ChipAuthenticity != document.CHIP_AUTH_STATUS_NONE {
-				k.Violation("trust:clone-authentic:"+sc+":"+where, fmt.Sprintf("a cloned chip (%s) is reported chip-authentic (%v)", sc, sum.ChipAuthenticity), det)
+				k.Violation("trust:clone-authentic:"+sc+":"+where+kcfg, fmt.Sprintf("a cloned chip (%s) is reported chip-authentic (%v)", sc, sum.ChipAuthenticity), det)
 				return false
 			}
 			if sc == "clone-own-keys" && sum.DataTrusted {
-				k.Violation("trust:clone-trusted:"+sc+":"+where, "a clone with substituted key files is reported as trusted", det)
+				k.Violation("trust:clone-trusted:"+sc+":"+where+kcfg, "a clone with substituted key files is reported as trusted", det)
 				return false
 			}
 		case sc == "strip-dg14" || sc == "strip-dg15" || sc == "strip-both" || sc == "downgrade-cardaccess" || sc == "downgrade-cardaccess-extra-info":
 			if sum.DataTrusted {
-				k.Violation("trust:incomplete-trusted:"+sc+":"+where, fmt.Sprintf("data reported trusted although %s", sc), det)
+				k.Violation("trust:incomplete-trusted:"+sc+":"+where+kcfg, fmt.Sprintf("data reported trusted although %s (reader configuration %s, hash list order %v)", sc, cfg, p.SODDGs), det)
 				return false
+			}
+			if pa := d.Session.PassiveAuthResult; pa != nil && pa.Success {
+				// passive authentication is fine: only the completeness check stands between
+				// this chip and a trusted verdict
+				k.Count(pre + "untrusted_by_completeness_check_alone_" + where)
+				if cs.block != "partB" {
+					k.Count(pre + "untrusted_by_completeness_check_alone_cfg_" + cfg)
+				}
 			}
 		case sc == "untrusted-issuer":
 			if sum.DataTrusted || sum.ChipAuthenticity != document.CHIP_AUTH_STATUS_NONE {
-				k.Violation("trust:untrusted-issuer-accepted:"+where, "verdict trusted / chip-authentic although the issuer is not in the trust store", det)
+				k.Violation("trust:untrusted-issuer-accepted:"+where+kcfg, "verdict trusted / chip-authentic although the issuer is not in the trust store", det)
 				return false
 			}
 		case sc == "genuine":
 			if !sum.DataTrusted {
-				k.Count("partB_genuine_not_trusted_" + where)
+				k.Count(pre + "genuine_not_trusted_" + where)
 			} else {
-				k.Count("partB_genuine_trusted_" + where)
+				k.Count(pre + "genuine_trusted_" + where)
+				if cs.order != perso.SODAscending {
+					k.Count(pre + "genuine_trusted_unsorted_hash_list_" + where)
+				}
 			}
 		}
 		return true
@@ -429,21 +660,42 @@ func c02PartB(k *fw.K, i int) {
 	if res.docEx != nil {
 		blob, err := res.docEx.ToCbor()
 		if err == nil {
-			off, verr := verifier.NewVerifier(trustPool(p.Trust)).Verify(blob)
-			k.AddEvals(1)
-			if verr == nil {
-				if !judge(off, "offline") {
-					return
+			// offline: a plain verifier; with a caller-supplied AA challenge also a verifier that
+			// was given the same challenge and one that was given another
+			type offv struct {
+				name string
+				ch   []byte
+			}
+			vs := []offv{{"offline", nil}}
+			if lo.aaChallenge != nil {
+				other := append([]byte{}, lo.aaChallenge...)
+				other[r.IntN(8)] ^= byte(1 << r.IntN(8))
+				vs = append(vs, offv{"offline-same-challenge", lo.aaChallenge}, offv{"offline-other-challenge", other})
+			}
+			for _, v := range vs {
+				ver := verifier.NewVerifier(trustPool(p.Trust))
+				if v.ch != nil {
+					if _, err := ver.WithAAChallenge(v.ch); err != nil {
+						k.Count(pre + "offline_challenge_refused")
+						continue
+					}
 				}
-				k.Count("partB_offline_judged")
-			} else {
-				k.Count("partB_offline_rejected")
+				off, verr := ver.Verify(blob)
+				k.AddEvals(1)
+				if verr == nil {
+					if !judge(off, v.name) {
+						return
+					}
+					k.Count(pre + "offline_judged")
+				} else {
+					k.Count(pre + "offline_rejected")
+				}
 			}
 		}
 	}
-	k.Count("partB_ok")
+	k.Count(pre + "ok")
 	if i < 2*len(c02Scenarios) {
-		k.Sample("partB", det)
+		k.Sample(cs.block, det)
 	}
 }
 
@@ -452,5 +704,7 @@ func runC02(c *fw.Ctx) {
 	nw := c.Pick(200, 20000)
 	c.Cases(nw, func(i int) string { return fmt.Sprintf("walk|i=%d", i) }, func(i int, k *fw.K) { c02Walk(k, i) })
 	n := c.Pick(240, 10000)
-	c.Cases(n, func(i int) string { return fmt.Sprintf("partB|%s i=%d", c02Scenarios[i%len(c02Scenarios)], i) }, func(i int, k *fw.K) { c02PartB(k, i) })
+	c.Cases(n, func(i int) string { return fmt.Sprintf("partB|%s i=%d", c02Scenarios[i%len(c02Scenarios)], i) }, func(i int, k *fw.K) { c02PartB(k, i, c02RotationCase(i)) })
+	plan := c02CfgPlan(c, c.Pick(4, 60))
+	c.Cases(len(plan), func(i int) string { return fmt.Sprintf("partBcfg|%v i=%d", plan[i], i) }, func(i int, k *fw.K) { c02PartB(k, i, plan[i]) })
 }
